@@ -267,7 +267,7 @@ class Probe:
             def fwd(t):
                 with ctx.quiet():
                     return torch.func.functional_call(m, {'theta': t}, ())
-            probe.observe('DiscreteProbability.forward/weighted', fwd, m.theta.detach(), {'dim': m.dim, 'method': m.method})
+            probe.observe('DiscreteProbability.forward/weighted', fwd, m.theta.detach(), {'dim': m.dim, 'method': m.method, 'weight_inv': [round(float(x), 6) for x in to_numpy(m.weight_inv)]})
 
         ctx.attach(I.DiscreteProbability, 'forward', post=post_prob_forward, point='DiscreteProbability.forward')
 
